@@ -1441,7 +1441,10 @@ def run(ctx):
                 "older copies, and read back through ProblemViewDataStore). A case is non-trivial with >= 2 individuals; distinct "
                 "= distinct (kind, parameters, criteria, recording incl. how it was recorded). Indicators: "
                 "point sets of 1-6 points with 1-4 dyadic coordinates (random, identical, subset, shifted by d >= 0, shifted by "
-                "d < 0, near-duplicates, empty/zero-dimensional), non-trivial when well formed with >= 3 points in total; "
+                "d < 0, near-duplicates, empty/zero-dimensional), non-trivial when well formed with >= 3 points in total; plus point "
+                "sets of 255..257, 511..513, 1023..1025, 2047..2049 and 4097 points with the point that decides the indicator at "
+                "a block-boundary index (first, last, 2^k - 1, 2^k) of the computed resp. reference set, and identical / shifted "
+                "sets of 255..257 points (thorough: more); "
                 "30% of the cases with >= 2 computed points go through Results.performance_measure")
     for parts in problems.values():
         retire(parts[0])
